@@ -396,7 +396,7 @@ Fixpoint solve (fuel : nat) (g : term) (e : env) (b : Z) (k : K) (st : sstate) {
                        | Some p => if sp_dynamic p
                                    then k e (ss_set_db st (filter (fun q => negb (String.eqb (sp_name q) nm && Nat.eqb (sp_arity q) (Z.to_nat ar))) (ss_db st)))
                                    else (ORaise (perm_err "modify" "static_procedure" (pi_t nm ar)), st)
-                       | None => (ORaise (perm_err "modify" "static_procedure" (pi_t nm ar)), st)
+                       | None => k e st   (* ISO 8.9.4: true; there is nothing to remove *)
                        end
               | Var _, _ => (ORaise inst_err, st)
               | Atom _, Var _ => (ORaise inst_err, st)
